@@ -438,7 +438,8 @@ where B: Fn(&Arc<Sched>) -> (Execution, Verdict) + Sync {
     let stats: Mutex<Stats> = Mutex::new(Stats::default());
     let execs = AtomicU64::new(0);
     std::thread::scope(|scope| {
-        for _ in 0..cfg.workers.max(1) {
+        let workers = std::env::var("SCHED_WORKERS").ok().and_then(|s| s.parse().ok()).unwrap_or(cfg.workers);
+        for _ in 0..workers.max(1) {
             scope.spawn(|| {
                 loop {
                     let item = {
